@@ -167,6 +167,9 @@ func leadershipRoundTrip(main *world) (*caseRec, func()) {
 		worlds[x] = w
 	}
 	var rec caseRec
+	// the requests of this case are served by several members: the model replays it without the per-member mutex
+	rec.Ops = append(rec.Ops, op{K: "members"})
+	rec.Obs = append(rec.Obs, "(BUnit, "+worlds[a].view()+")")
 	on := func(x *node, ops ...op) {
 		for _, o := range ops {
 			worlds[x].step(&rec, o)
